@@ -32,7 +32,10 @@ pub(crate) fn label_token() -> Token {
 /// contract stub for error::parse_generic_unexpected (C05): the found token's kind must be displayable,
 /// its span must lie inside the source (the real constructor formats `found.kind` and slices `src`)
 pub(crate) fn generic_unexpected_contract(src: &'static str, _expected: &str, found: Token) -> miette::Report {
-    assert!(displayable(&found.kind), "error path formats a token kind whose Display is unreachable!()");
+    // the real constructor formats `found.kind`: run the real Display impl (panics if that kind is unreachable!() there)
+    let mut w = crate::lexer::verif_h::NullWriter;
+    let r = core::fmt::write(&mut w, format_args!("{}", found.kind));
+    assert!(r.is_ok());
     assert!(found.span.offs() + found.span.len() <= src.len(), "diagnostic span outside the source");
     miette::Report::msg("")
 }
@@ -578,3 +581,62 @@ fn c17_statement_span_and_break() {
         }
     }
 }
+
+// ------------------------------------------------------------------ C15: the contract of parse_simple
+// parse_simple = read the first token, dispatch to parse_instr / parse_trap with *that token's* mnemonic,
+// refuse non-instructions and surplus operands.  (Heavy: the mnemonic is read back from the token vector, which
+// makes parse_instr's match symbolic for the symbolic executor -- thorough tier.)
+fn any_non_directive_token() -> Token {
+    let t = any_token(SRC.len());
+    // eval text is lexed without the directive preprocessor: no Byte / Breakpoint tokens can occur
+    kani::assume(!matches!(t.kind, TokenKind::Byte(_) | TokenKind::Breakpoint));
+    t
+}
+parse_attrs! { fn c15_parse_simple_ret() {
+    let surplus: bool = kani::any();
+    let extra = any_non_directive_token();
+    let toks = if surplus { vec![instr_token(InstrKind::Ret), extra] } else { vec![instr_token(InstrKind::Ret)] };
+    let mut p = parser_over(toks, 1);
+    let got = p.parse_simple();
+    if surplus {
+        assert!(got.is_err(), "surplus operand accepted by eval's parser");
+    } else {
+        assert!(matches!(got, Ok(AirStmt::Return)), "`ret` not parsed as RET");
+    }
+    kani::cover!(surplus);
+    kani::cover!(!surplus);
+    core::mem::forget(got);
+    core::mem::forget(p);
+}}
+parse_attrs! { fn c15_parse_simple_not() {
+    let n: usize = kani::any();
+    kani::assume(n <= 3);
+    let (a, b) = (any_register(), any_register());
+    let mut toks = vec![instr_token(InstrKind::Not)];
+    if n >= 1 { toks.push(reg_token(a)); }
+    if n >= 2 { toks.push(reg_token(b)); }
+    if n >= 3 { toks.push(any_non_directive_token()); }
+    let mut p = parser_over(toks, 1);
+    let got = p.parse_simple();
+    if n == 2 {
+        assert!(matches!(got, Ok(AirStmt::Not { dest, src_reg }) if dest == a && src_reg == b), "`not r r` not parsed as given");
+    } else {
+        assert!(got.is_err(), "missing or surplus operand accepted by eval's parser");
+    }
+    kani::cover!(n == 3);
+    kani::cover!(n == 1);
+    core::mem::forget(got);
+    core::mem::forget(p);
+}}
+parse_attrs! { fn c15_parse_simple_not_an_instruction() {
+    let t = any_non_directive_token();
+    kani::assume(!matches!(t.kind, TokenKind::Instr(_) | TokenKind::Trap(_)));
+    let empty: bool = kani::any();
+    let mut p = parser_over(if empty { Vec::new() } else { vec![t] }, 1);
+    let got = p.parse_simple();
+    assert!(got.is_err(), "non-instruction accepted by eval's parser");
+    kani::cover!(empty);
+    kani::cover!(matches!(t.kind, TokenKind::Dir(_)));
+    core::mem::forget(got);
+    core::mem::forget(p);
+}}
